@@ -39,9 +39,10 @@ What is proved.
   a path returned by the lock-step search, walked by `traverse_path` on the current parse stack, reaches
   the content of the requested node: the hypothesis `Valid` of `complete_decodes_partial` is reduced to an
   invariant of `update`/`push`/`pop`;
-  `faithful_update_sound` — on a cache without sentinel `update()` keeps that invariant (every entry has a
-  content, every sub-node of the root is registered under its key with its content, only true parent links
-  are recorded, `MAX_PARENTS` eviction and the final `drain` only remove or replace links by true ones);
+  `faithful_update_sound` — `update()` keeps that invariant, with or without sentinel (every entry has a
+  content, refined when the pending sentinel is filled; every registered `NodePtr` has its content; only
+  true parent links are recorded — also the ones taken over from the old sentinel entry; `MAX_PARENTS`
+  eviction and the final `drain` only remove or replace links by true ones);
   `faithful_single_add_decodes` / `faithful_statement_no_sentinel` — **unconditional** `Statement` for the
   faithful model on serializers without sentinel (the incremental serializer used as a one-shot
   serializer, `add:` and `adds:` node identities): whenever `add` returns, it reports completion and both
@@ -205,12 +206,21 @@ theorem faithful_find_path_sound (C : Nat → Tree) (tc : TC) (hps : ParentsSoun
       ∃ cost, traversePath path (mirror C tc.stack.reverse) = .ok (cost, C idx) :=
   findPath_sound C tc hps node path h
 
-/-- **`update()` keeps the invariant** on a cache without sentinel: contents extend, the parse stack is
-untouched, every recorded parent link is a true child relation, every registered key has its content. -/
-theorem faithful_update_sound (K : Key → Tree) (C : Nat → Tree) (tc tc' : TC) (h : UInv K C tc) (root : Node)
-    (hk : KOk K root) (hu : tc.update root = .ok tc') :
-    ∃ C', UInv K C' tc' ∧ (∀ j, j < tc.entries.size → C' j = C j) ∧ tc'.stack = tc.stack :=
-  update_spec h root hk hu
+/-- **`update()` keeps the invariant**, with or without sentinel: `C` gives every entry a content (the
+pending sentinel as the marker atom), every recorded parent link is a true child relation, every
+registered `NodePtr` but the sentinel's has its content `K`, an entry whose content contains the sentinel
+has serialized length 0.  When `root` is added, all contents are *refined* (`sigma`: the pending sentinel
+becomes `root`'s tree; identity without sentinel) — also in the parent links taken over from the old
+sentinel entry — and `K'` is the refined key-content function extended to the nodes of `root`. -/
+theorem faithful_update_sound (sent : Option Bytes) (K K' : Key → Tree) (C : Nat → Tree) (tc tc' : TC)
+    (h : UInv sent K C tc) (root : Node) (hk : KOk K' root) (hx : ∀ m, sent = some m → cnt m root.tree ≤ 1)
+    (hagree : ∀ k i, alGet tc.nodeMap k = some i → ¬ IsSK sent k → K' k = sigma sent root.tree (K k))
+    (hpend : ∀ m s0, sent = some m → alGet tc.nodeMap (Key.atom m) = some s0 → C s0 = Tree.atom m)
+    (hu : tc.update root = .ok tc') :
+    ∃ C', UInv sent K' C' tc' ∧ (∀ j, j < tc.entries.size → C' j = sigma sent root.tree (C j)) ∧
+      tc'.stack = tc.stack := by
+  obtain ⟨C', h1, h2, h3, _⟩ := update_spec h root K' hk hx hagree hpend hu
+  exact ⟨C', h1, h2, h3⟩
 
 /-- **the faithful model as a one-shot serializer**: no sentinel, one addition built as the harness builds
 it (`adds:` = `shared`, `add:` = fresh `NodePtr`s numbered from `next`).  If `add` returns, it reports
